@@ -10,7 +10,7 @@ name, prop, outdir = sys.argv[1:4]
 REPO = os.environ.get("SEEDTEST_REPO", "/repo")
 checks = sys.argv[4:] or [prop]
 env = dict(os.environ, GOFLAGS="-mod=mod", GOPROXY="off", GOSUMDB="off", GOTOOLCHAIN="local", PQL_SRC=REPO, VERIF_REPO=REPO)
-def sh(cmd, **kw): return subprocess.run(cmd, shell=True, capture_output=True, text=True, env=env, **kw)
+def sh(cmd, **kw): return subprocess.run(cmd, shell=True, capture_output=True, text=True, errors="replace", env=env, **kw)
 if REPO != "/repo" and not os.path.isdir(REPO):
     sh("git -C /repo worktree add --detach %s HEAD" % REPO)
 assert sh("git -C %s status --porcelain" % REPO).stdout.strip() == "", REPO + " not clean"
@@ -36,9 +36,14 @@ if has_demo:
     shutil.copy(os.path.join(REPO, "go.sum"), os.path.join(demo, "go.sum"))
 def run_demo():
     if not has_demo: return None
-    t = sh("cd %s && (go test -count=1 ./... 2>&1 || true) | tail -15" % demo)
-    ok = "FAIL" not in t.stdout and "ok" in t.stdout
-    return ok, t.stdout[-600:]
+    has_tests = any(f.endswith("_test.go") for _, _, fs in os.walk(demo) for f in fs)
+    if has_tests:
+        t = sh("cd %s && (go test -count=1 ./... 2>&1 || true) | tail -15" % demo)
+        ok = "FAIL" not in t.stdout and "ok" in t.stdout
+        return ok, t.stdout[-600:]
+    t = sh("cd %s && go run . 2>&1 | tail -15" % demo)     # a program: exit status decides
+    t2 = sh("cd %s && go run . >/dev/null 2>&1" % demo)
+    return t2.returncode == 0, t.stdout[-600:]
 base_demo = run_demo()
 sh("git -C %s apply %s" % (REPO, patch))
 try:
